@@ -102,6 +102,9 @@ def gen_case(rng: random.Random, cfg: str | None = None, max_nodes: int = 8, fra
              with_ids: bool | None = None, ndim: int | None = None) -> dict:
     cfg = cfg or rng.choice(["pos", "pos", "axes", "seg", "seg"])
     ndim = ndim or (rng.choice([3, 3, 4]) if cfg != "seg" else rng.choice([3, 3, 3, 4]))
+    long_movie = cfg == "seg" and ndim == 3 and frames == 5 and rng.random() < 0.03
+    if long_movie:
+        frames = 300   # more frames than a byte can count (small frames: 3 x 3)
     nodes, edges = gen_forest(rng, max_nodes, frames)
     with_ids = rng.random() < 0.8 if with_ids is None else with_ids
     spec: dict[str, Any] = {"cfg": cfg, "ndim": ndim, "with_ids": with_ids}
@@ -114,7 +117,7 @@ def gen_case(rng: random.Random, cfg: str | None = None, max_nodes: int = 8, fra
         if rng.random() < 0.3:
             e["w"] = rng.randrange(100)
     if cfg == "seg":
-        shape = (frames, 5, 5) if ndim == 3 else (frames, 3, 3, 3)
+        shape = ((frames, 5, 5) if not long_movie else (frames, 3, 3)) if ndim == 3 else (frames, 3, 3, 3)
         spec["shape"] = list(shape)
         spec["seg"] = gen_seg(rng, nodes, edges, shape)
         # a node without pixels cannot exist in a consistent state: drop it
